@@ -428,6 +428,20 @@ func (e *testEnv) seqScenario(c *suiteCtx, kind string, in map[string]interface{
 			e.idp.mu.Unlock()
 		}
 		ck := e.issueSessionCookie(s)
+		// every endpoint that answers from the session is behind the same rule: the stale session is re-validated first — also the
+		// ones that only DISCLOSE the identity or end the session (asked before the proxied request, with their own copy of the cookie)
+		if kind == "nort-invalid" {
+			for _, tg := range []string{"/oauth2/userinfo", "/oauth2/auth"} {
+				ckE := e.issueSessionCookie(s)
+				v := e.do(reqSpec{Target: tg, Cookie: ckE})
+				c.casen(fmt.Sprintf("%d:%s:%s", si, kind, tg), fmt.Sprint(v.Status))
+				c.count("scenario:stale-on-every-endpoint")
+				if v.Status == 200 || v.Status == 202 {
+					c.violation("C12", "a session older than the refresh period that can neither be refreshed nor re-validated was honoured by "+tg+" (status "+fmt.Sprint(v.Status)+"): the identity provider was not consulted on that endpoint",
+						map[string]interface{}{"endpoint": tg, "status": v.Status, "body": truncate(v.Body, 120), "cleared": hasSessionSet(v, e.opts.Cookie.Name)})
+				}
+			}
+		}
 		res := e.fire(1, ck)
 		refreshes, _, _ := e.idpCounts()
 		in["status"], in["idp_refresh_calls"], in["cleared"] = res[0].status, refreshes, res[0].cleared
